@@ -926,6 +926,69 @@ def m_str_starts_with(c):
     raise Unsupported('starts_with / ends_with on a string that is not a literal')
 
 
+def _lit(c, v):
+    v = deref(c.st, v) if isinstance(v, Ptr) else v
+    if isinstance(v, Int) and z3.is_bv_value(z3.simplify(v.v)):
+        return chr(z3.simplify(v.v).as_long())
+    if isinstance(v, Str) and v.text is not None and v.parts is None:
+        return v.text
+    raise Unsupported(c.canon + ' on a string that is not a literal')
+
+
+@model('core::str::is_empty', 'str::is_empty', 'String::is_empty')
+def m_str_is_empty(c):
+    return z3.BoolVal(_lit(c, c.args[0]) == '')
+
+
+@model('core::str::bytes', 'str::bytes')
+def m_str_bytes(c):
+    from .values import IterObj
+    return IterObj([Int(z3.BitVecVal(b, 8), False) for b in _lit(c, c.args[0]).encode()], 0, 'list')
+
+
+@pattern(r'^core::num::is_ascii_(digit|alphabetic|alphanumeric|whitespace|uppercase|lowercase)$|^core::char::methods::is_ascii_digit$')
+def m_is_ascii_class(c):
+    v = deref(c.st, c.args[0]) if isinstance(c.args[0], Ptr) else c.args[0]
+    x = v.v
+    w = x.size()
+    rng = lambda lo, hi: z3.And(z3.UGE(x, z3.BitVecVal(lo, w)), z3.ULE(x, z3.BitVecVal(hi, w)))
+    k = c.canon.rsplit('_', 1)[1]
+    digit, upper, lower = rng(48, 57), rng(65, 90), rng(97, 122)
+    if k == 'digit':
+        return z3.simplify(digit)
+    if k == 'uppercase':
+        return z3.simplify(upper)
+    if k == 'lowercase':
+        return z3.simplify(lower)
+    if k == 'alphabetic':
+        return z3.simplify(z3.Or(upper, lower))
+    if k == 'alphanumeric':
+        return z3.simplify(z3.Or(digit, upper, lower))
+    return z3.simplify(z3.Or(x == 32, rng(9, 10), rng(12, 13)))
+
+
+@model('core::str::contains', 'str::contains')
+def m_str_contains(c):
+    return z3.BoolVal(_lit(c, c.args[1]) in _lit(c, c.args[0]))
+
+
+@model('core::str::strip_prefix', 'str::strip_prefix', 'core::str::strip_suffix', 'str::strip_suffix')
+def m_str_strip(c):
+    s_, p_ = _lit(c, c.args[0]), _lit(c, c.args[1])
+    if c.canon.endswith('prefix'):
+        return some(Ptr(Cell(val=Str(text=s_[len(p_):])), 0), 'Option<&str>') if s_.startswith(p_) else none('Option<&str>')
+    return some(Ptr(Cell(val=Str(text=s_[:len(s_) - len(p_)])), 0), 'Option<&str>') if s_.endswith(p_) else none('Option<&str>')
+
+
+@model('core::str::rsplit', 'str::rsplit', 'core::str::split', 'str::split')
+def m_str_split(c):
+    from .values import IterObj
+    pieces = _lit(c, c.args[0]).split(_lit(c, c.args[1]))
+    if c.canon.endswith('rsplit'):
+        pieces.reverse()
+    return IterObj([Ptr(Cell(val=Str(text=x)), 0) for x in pieces], 0, 'list')
+
+
 @model('String::new', 'std::string::String::new')
 def m_string_new(c):
     return Str(text='')
